@@ -197,6 +197,7 @@ func finishChecks(c *core.Ctx) {
 		"op.PFI":                                              3,
 		"queries_parked_between_snapshot_and_memory_read":     5,
 		"flushes_completed_inside_a_parked_query":             5,
+		"grouping_lookups_straddling_a_completed_flush":       1,
 		"metrics_with_series_ids_beyond_65535":                1,
 		"concurrent_queries_with_a_nonempty_lower_bound":      200,
 		"conc_flush_cycles":                                   50,
